@@ -57,6 +57,11 @@ pub struct SubjectSpec {
     /// does not accept the rewritten text
     #[serde(default)]
     pub output_header: bool,
+    /// the subject is the typed message deserialised from the (mutated) draw — built in memory, never
+    /// parsed from text. Direct entry points are judged on it as on any subject; the plugin (which sees
+    /// the message's own serialisation) is judged only when that text parses back to exactly this message.
+    #[serde(default)]
+    pub typed: bool,
     pub plan: MutPlan,
 }
 
@@ -464,6 +469,9 @@ pub struct Subject {
     /// a copy taken before any validation call touched the message
     pub pristine: ParsedSwiftMessage,
     pub snap: (u64, u64),
+    /// false for a typed subject whose text does not parse back to exactly the same message
+    pub plugin_ok: bool,
+    pub typed: bool,
 }
 
 /// In-place edit of a message's public fields (repetitive sequences; for MT103 two optional
@@ -534,6 +542,25 @@ fn build(mt_hint: &str, g: &Value) -> Option<(String, ParsedSwiftMessage)> {
         let text = mt::json_to_text(mt_hint, g).ok()?;
         let p = mt::parse_auto(&text).ok()?;
         Some((text, p))
+    }))
+    .ok()
+    .flatten()
+}
+
+/// JSON → typed message (the subject) → its MT text → parse (must succeed: every field's content then
+/// passed the parser's format checks); the flag says whether the parse gives back exactly the typed message.
+fn build_typed(mt_hint: &str, g: &Value) -> Option<(String, ParsedSwiftMessage, bool)> {
+    std::panic::catch_unwind(std::panic::AssertUnwindSafe(|| {
+        let m0 = mt::json_to_typed(mt_hint, g).ok()?;
+        let (j0, text) = mt::snapshot(&m0);
+        let p = mt::parse_auto(&text).ok()?;
+        if p.message_type() != m0.message_type() {
+            return None;
+        }
+        let (j1, text1) = mt::snapshot(&p);
+        let mut d = vec![];
+        crate::util::json_diff(&j0, &j1, "", &mut d);
+        Some((text.clone(), m0, d.is_empty() && text1 == text))
     }))
     .ok()
     .flatten()
@@ -789,6 +816,9 @@ impl History {
                         if let Some(c) = input_changed {
                             return Some(viol(format!("C13/I6 {mt} validate_mt changed the message it was asked to validate"), format!("operation {seq} on subject {m}: {c}")));
                         }
+                        if !s.plugin_ok {
+                            continue;
+                        }
                         if let Some(e) = exec_err {
                             return Some(viol(format!("C13/I5 {mt} plugin execution fails on a parseable message"), format!("operation {seq} on subject {m}: {e}")));
                         }
@@ -987,7 +1017,8 @@ impl Engine for C13 {
             let (scenario, donor) = if sibling_of.is_some() { (subjects[0].scenario.clone(), subjects[0].donor.clone()) } else { (sc.rel.clone(), donor) };
             let attempts = if target >= 2 { 36 } else { 14 };
             let output_header = w.chance(1, 6);
-            subjects.push(SubjectSpec { scenario, donor, donor2, sibling_of, output_header, plan: MutPlan::Climb { seed: derive(run_seed, "climb", k as u64), target, attempts } });
+            let typed = Sm(derive(run_seed, "typed", k as u64)).chance(1, 4);
+            subjects.push(SubjectSpec { scenario, donor, donor2, sibling_of, output_header, typed, plan: MutPlan::Climb { seed: derive(run_seed, "climb", k as u64), target, attempts } });
         }
         let callers = 1 + s.below(4);
         let n_ops = 6 + s.below(19);
@@ -1089,7 +1120,8 @@ impl Engine for C13 {
                     MutPlan::Climb { seed, target, attempts } => {
                         let mut r = Sm(*seed);
                         let mut hot: Option<Vec<String>> = None;
-                        let mut cur = build(&sc.mt, &g).and_then(|(_, p)| nerr(&p)).unwrap_or(0);
+                        let measure = |g: &Value| if ss.typed { build_typed(&sc.mt, g).and_then(|(_, p, _)| nerr(&p)) } else { build(&sc.mt, g).and_then(|(_, p)| nerr(&p)) };
+                        let mut cur = measure(&g).unwrap_or(0);
                         for _ in 0..*attempts {
                             if cur >= *target {
                                 break;
@@ -1100,7 +1132,7 @@ impl Engine for C13 {
                                 g = saved;
                                 continue;
                             }
-                            match build(&sc.mt, &g).and_then(|(_, p)| nerr(&p)) {
+                            match measure(&g) {
                                 Some(n) if n >= cur => {
                                     if n > cur || r.chance(1, 3) {
                                         if n > cur {
@@ -1121,11 +1153,18 @@ impl Engine for C13 {
                         }
                     }
                 }
-                let Some((mut text, mut parsed)) = build(&sc.mt, &g) else {
+                let built = if ss.typed { build_typed(&sc.mt, &g) } else { build(&sc.mt, &g).map(|(t, p)| (t, p, true)) };
+                let Some((mut text, mut parsed, plugin_ok)) = built else {
                     out.discard = Some(format!("subject outside the domain (not publishable / not parseable): MT{}", sc.mt));
                     return (out, None);
                 };
-                if ss.output_header {
+                if ss.typed {
+                    out.count("probe.typed_subject", 1);
+                    if !plugin_ok {
+                        out.count("probe.typed_subject_text_not_exact", 1);
+                    }
+                }
+                if ss.output_header && !ss.typed {
                     // {2:I<mt><receiver 12><priority…>} → {2:O<mt><input time><MIR: date, LT, session, sequence><output date><output time><priority>}
                     if let Some(a) = text.find("{2:I") {
                         if let Some(end) = text[a..].find('}') {
@@ -1149,7 +1188,7 @@ impl Engine for C13 {
                 let snap = snap_digest(&parsed);
                 out.log.push(format!("subject {k} MT{} text={} bytes={} muts={}", parsed.message_type(), hex(fnv_str(&text)), text.len(), serde_json::to_string(&accepted).unwrap_or_default().chars().take(300).collect::<String>()));
                 let pristine = parsed.clone();
-                subjects.push(Subject { mt: parsed.message_type().to_string(), text, parsed, pristine, snap });
+                subjects.push(Subject { mt: parsed.message_type().to_string(), text, parsed, pristine, snap, plugin_ok, typed: ss.typed });
             }
             out.content_digest = fnv_str(&subjects.iter().map(|s| s.text.as_str()).collect::<Vec<_>>().join("\u{1}"));
             let subjects = Arc::new(subjects);
@@ -1227,6 +1266,17 @@ impl Engine for C13 {
                         }
                         let key: Vec<String> = cnt.iter().map(|(c, n)| if *n > 1 { format!("{c}x{}", (*n).min(3)) } else { c.to_string() }).collect();
                         out.harvest.push(format!("MT{}|{}", s.mt, key.join("+")));
+                        if s.typed {
+                            // in-memory messages: message type × set of (code @ field the finding names)
+                            fn field_of(v: &Value) -> Option<&str> {
+                                match v {
+                                    Value::Object(o) => o.get("field").and_then(|f| f.as_str()).or_else(|| o.values().find_map(field_of)),
+                                    _ => None,
+                                }
+                            }
+                            let set: std::collections::BTreeSet<String> = l.iter().zip(codes.iter()).map(|(e, c)| format!("{c}@{}", field_of(e).unwrap_or("-"))).collect();
+                            out.harvest.push(format!("MT{}|typed{}|{}", s.mt, if s.plugin_ok { "" } else { "-inexact" }, set.into_iter().collect::<Vec<_>>().join("+")));
+                        }
                     }
                     let n_ops = a.history.recs.iter().filter(|r| r.2 == m).count();
                     if !l.is_empty() && n_ops >= 2 {
@@ -1285,6 +1335,13 @@ impl Engine for C13 {
             let mut s = spec.clone();
             s.callers = 1;
             v.push(s);
+        }
+        for k in 0..spec.subjects.len() {
+            if spec.subjects[k].typed {
+                let mut s = spec.clone();
+                s.subjects[k].typed = false;
+                v.push(s);
+            }
         }
         if spec.diag {
             let mut s = spec.clone();
